@@ -564,6 +564,9 @@ pub fn srv_case(toks: &[String]) -> (String, bool) {
                 }
                 // while idle (waiting for a request head)
                 ("malformed", _) => send(cl, b"BAD\x01 REQUEST\r\n\r\n"),
+                // three "OPTIONS *" pings in one write: the asterisk form is not a path this server accepts -- the first
+                // one ends the connection like any malformed request (and nothing answers the others)
+                ("optstar", _) => send(cl, b"OPTIONS * HTTP/1.1\r\n\r\nOPTIONS * HTTP/1.1\r\n\r\nOPTIONS * HTTP/1.1\r\n\r\n"),
                 ("aborthead", _) => {
                     send(cl, b"GET /g/0/9 HT");
                     std::thread::sleep(Duration::from_millis(2));
